@@ -1227,7 +1227,24 @@ Proof.
   apply (inner_schemas e _ Q Hr). auto.
 Qed.
 
-Theorem file_acceptance : forall es, file_quantifier es = true -> exists cs, compile_file es = Ok cs.
+Lemma convert_all_accepts_parts : forall es, Forall quantified es ->
+  exists l, Forall2 (fun e cs => (exists fl, cs = expand_with e fl) /\ convert e = Ok cs) es l
+            /\ convert_all es = Ok (concat l).
+Proof.
+  induction 1 as [|e es Q _ [l [HF Hc]]].
+  - exists []. split; [constructor|reflexivity].
+  - destruct (convert_accepts e Q) as [fl He]. exists (expand_with e fl :: l). split.
+    + constructor; [split; [now exists fl|exact He]|exact HF].
+    + cbn [convert_all concat]. now rewrite He, Hc.
+Qed.
+
+Lemma Forall2_weaken : forall {A B} (P Q : A -> B -> Prop) l1 l2,
+  (forall a b, P a b -> Q a b) -> Forall2 P l1 l2 -> Forall2 Q l1 l2.
+Proof. intros A B P Q l1 l2 H HF. induction HF; constructor; auto. Qed.
+
+(* a file of several declarations compiles to the concatenation of what each declaration converts to *)
+Theorem file_acceptance_parts : forall es, file_quantifier es = true ->
+  exists l, Forall2 (fun e cs => convert e = Ok cs) es l /\ compile_file es = Ok (concat l).
 Proof.
   intros es H. unfold file_quantifier in H.
   repeat match type of H with
@@ -1237,7 +1254,10 @@ Proof.
   { apply Forall_forall. intros e He. rewrite forallb_forall in H. specialize (H e He).
     apply andb_true_iff in H. destruct H as [H1 H2]. split; [now apply quantified_of|exact H2]. }
   assert (HQ : Forall quantified es) by (eapply Forall_impl; [|exact Hall]; intros e [Q _]; exact Q).
-  destruct (convert_all_accepts es HQ) as [l [HF Hc]]. exists (concat l).
+  destruct (convert_all_accepts_parts es HQ) as [l [HF2 Hc]]. exists l.
+  split; [eapply Forall2_weaken; [|exact HF2]; intros a b [_ Hab]; exact Hab|].
+  assert (HF : Forall2 (fun e cs => exists fl, cs = expand_with e fl) es l)
+    by (eapply Forall2_weaken; [|exact HF2]; intros a b [Hab _]; exact Hab).
   unfold compile_file.
   assert (Hst : existsb (fun e => is_nil (e_status e)) es = false).
   { destruct (existsb (fun e => is_nil (e_status e)) es) eqn:E; [|reflexivity]. apply existsb_exists in E.
@@ -1254,3 +1274,26 @@ Proof.
     - pose proof (inner_scopes_concat es l HF Hall) as A. unfold all_nodup in A. rewrite Forall_forall in A. now apply A. }
   now rewrite Hl.
 Qed.
+
+Theorem file_acceptance : forall es, file_quantifier es = true -> exists cs, compile_file es = Ok cs.
+Proof. intros es H. destruct (file_acceptance_parts es H) as [l [_ Hc]]. now exists (concat l). Qed.
+
+(* THE FULL STATEMENT FOR FILES: every declaration of an admissible file yields its own components - the
+   file compiles to their concatenation, in declaration order - and each part satisfies every clause of
+   the specification for its declaration *)
+Theorem file_full_modulo_reserved : forall es, file_quantifier es = true ->
+  exists l, compile_file es = Ok (concat l)
+            /\ Forall2 (fun e cs => compile e = Ok cs /\ C17_spec e cs) es l.
+Proof.
+  intros es H. destruct (file_acceptance_parts es H) as [l [HF Hc]]. exists l. split; [exact Hc|].
+  assert (Hall : forall e, In e es -> in_quantifier e = true /\ reserved_free e = true).
+  { intros e He. unfold file_quantifier in H. apply andb_true_iff in H. destruct H as [H _].
+    apply andb_true_iff in H. destruct H as [H _]. apply andb_true_iff in H. destruct H as [H _].
+    rewrite forallb_forall in H. specialize (H e He). now apply andb_true_iff in H. }
+  clear H Hc. induction HF as [|e cs es l Hcv _ IH]; [constructor|]. constructor.
+  - destruct (Hall e (or_introl eq_refl)) as [Hq Hr].
+    destruct (full_modulo_reserved e Hq Hr) as [cs' [Hc' Hs']].
+    destruct (compile_inv e cs' Hc') as [_ [Hcv' _]]. rewrite Hcv in Hcv'. inversion Hcv'; subst cs'. split; assumption.
+  - apply IH. intros e' He'. apply Hall. now right.
+Qed.
+
